@@ -179,9 +179,18 @@ def history_tags(hist, obs):
     t = [f"ncols={len(hist['cols'])}"] + ["type:" + x for x in set(hist["cols"])]
     if not hist["cols"]:
         t.append("no-crn")
-    used = set()
+    used, registered = set(), set()
     for b, rec in zip(hist["batches"], obs):
         t.append("update:" + rec["outcome"])
+        cks = [ic.canon_key(hist["cols"], k) for k in b["keys"]] if hist["cols"] else []
+        if len(set(cks)) != len(cks):
+            t.append("dup:inside-batch")
+        if set(cks) & registered:
+            t.append("dup:with-registered-key")
+        if rec["outcome"] == "ok":
+            registered |= set(cks)
+        elif rec["before"] is None:
+            t.append("rejected-while-map-empty")
         t.append("clock:" + b["t"][0])
         if not b["sims"]:
             t.append("empty-batch")
